@@ -288,6 +288,36 @@ refresh_chain_contract!(refresh_chain__pruned_to_front, master = [4], user = [3,
 refresh_chain_contract!(refresh_chain__pruned_behind_shared_front, master = [2], user = [2, 1], expect = [2]);
 // @obl props=C04,C05 tier=thorough class=bounded fn=core::primitives::refresh_coordinate_keys shape="master [t3,t2] , user [t3,t2,t1]"
 refresh_chain_contract!(refresh_chain__tail_pruned_shared_front, master = [3, 2], user = [3, 2, 1], expect = [3, 2]);
+macro_rules! refresh_flavour_contract {
+    ($name:ident, master_hybrid = $mh:expr) => {
+        kproof! {
+            #[kani::unwind(8)]
+            fn $name() {
+                // the master key and the user hold the SAME scalar for the right, in different flavours
+                // (update_msk drops the KEM key in place when the hint of a right becomes Classic)
+                let (x, d): (u8, u8) = (any_fe(), kani::any());
+                let r1 = right(&[1]);
+                let mut msk = mk_msk(mk_tsk0(1), false);
+                let (m, u) = if $mh { (hybrid(x, d), classic(x)) } else { (classic(x), hybrid(x, d)) };
+                msk.secrets.insert(r1.clone(), (kani::any(), m.clone()));
+                let mut chain = LinkedList::new();
+                chain.push_back(u);
+                let mut usk: RevisionVec<Right, RightSecretKey> = RevisionVec::new();
+                usk.insert_new_chain(r1.clone(), chain);
+                let out = refresh_coordinate_keys(&msk, usk);
+                assert!(out.len() == 1, "C04: the right is kept");
+                let (_k, c) = uchain(&out, 0).unwrap();
+                assert!(c[0] == Some(m) && c[1].is_none(), "C11/C04: a refreshed key holds the master key's secrets, flavour included: a user secret that differs from the master's only by its KEM key is replaced, not kept");
+                std::mem::forget(msk);
+                std::mem::forget(out);
+            }
+        }
+    };
+}
+// @obl props=C04,C11 tier=quick class=bounded fn=core::primitives::refresh_coordinate_keys shape="master [classic x], user [hybridized x] (hint downgraded since the key was issued)"
+refresh_flavour_contract!(refresh_chain__flavour_downgraded, master_hybrid = false);
+// @obl props=C04,C11 tier=quick class=bounded fn=core::primitives::refresh_coordinate_keys shape="master [hybridized x], user [classic x]"
+refresh_flavour_contract!(refresh_chain__flavour_upgraded, master_hybrid = true);
 // @obl props=C05 tier=quick class=bounded fn=core::primitives::refresh_coordinate_keys shape="right absent from the master key"
 refresh_chain_contract!(refresh_chain__right_deleted, master = [], user = [2, 1], expect = []);
 
@@ -910,7 +940,7 @@ macro_rules! shuffle_contract {
         }
     };
 }
-// @obl props=C14,C01 tier=quick class=proved fn=core::primitives::shuffle shape="empty slice (no panic)"
+// @obl props=C14,C12,C01 tier=quick class=proved fn=core::primitives::shuffle shape="empty slice (no panic): decapsulating an altered ciphertext with no component"
 shuffle_contract!(shuffle__empty_slice, 0);
 // @obl props=C01,C07,C14 tier=quick class=bounded fn=core::primitives::shuffle shape="3 symbolic elements, symbolic draws"
 shuffle_contract!(shuffle__permutation_3, 3);
